@@ -111,6 +111,10 @@ def check(ctx, rep):
     rep.rule("R01e", "handlers relaxing the filter have no file-system/exec effect in any method a protocol calls", floor=1)
     rep.rule("R01m", "a selector that a handler hands back to handler selection starts with '/': the file-system view joins root and selector "
              "as text, so `<root>` + `x` names a neighbour of the root - and the selector filter has nothing against `x`", floor=2)
+    rep.rule("R01n", "= R19d: start-up rewrites the document root to '/' only on paths on which chroot has succeeded - a tolerated chroot failure "
+             "followed by the rewrite would make the whole file system the document root", floor=1)
+    from .c19 import confined_root_obligations
+    confined_root_obligations(ctx, rep, "R01n")
     rep.rule("R01f", "every file-system/exec call site in handlers/protocols/gopherentry is either inside VFS_Real on root+selector, "
              "or acts on a path of shape root + accepted selector + safe suffix (R01b, R01h)", floor=20)
     rep.rule("R01g", "percent-decoding appears only in protocol handle() before handler selection; none in handlers/", floor=4)
